@@ -2,4 +2,4 @@ import os, sys
 sys.path.insert(0, os.path.dirname(os.path.dirname(os.path.abspath(__file__))))
 from loopfam import drv, RULE, TRUSTED, ASSUME
 
-PROP = dict(drivers=[drv("stream"), drv("client", n=40), drv("multi", n=30)], sites=['^loop-stuck$', '^inbound-', '^engine-start$', '^harness$'], rule=RULE, trusted=TRUSTED, assumptions=ASSUME)
+PROP = dict(drivers=[drv("stream"), drv("client", n=40), drv("multi", n=30), drv("stream", n=40, tags="verif poll_opt")], sites=['^loop-stuck$', '^inbound-', '^engine-start$', '^harness$'], rule=RULE, trusted=TRUSTED, assumptions=ASSUME)
